@@ -30,7 +30,9 @@ PickPresent(useq, present, d) ==
   LET p == SelectSeq(useq, LAMBDA x : x \in present) IN
   IF Len(p) = 0 \/ d % 8 = 7 THEN Pick(useq, d \div 8) ELSE Pick(p, d \div 8)
 
-BoundVals == <<-INF, -2000, -1000, -5, 0, 0, 5, 1000, 1000, 2000, INF>>
+\* a lower bound of +inf / an upper bound of -inf leaves no admissible flux at all: out of scope
+LoVals == <<-INF, -2000, -1000, -1000, -5, 0, 0, 0, 5, 1000, 2000>>
+HiVals == <<-2000, -1000, -5, 0, 0, 5, 1000, 1000, 1000, 2000, INF>>
 CoefVals == <<-2, -1, 1, 2>>
 RuleU == <<RuleNone, G("g1"), G("g2"), G("g3"), And2(G("g1"), G("g2")), Or2(G("g1"), G("g2")),
            Or2(And2(G("g1"), G("g2")), G("g3")), And2(G("g1"), Or2(G("g2"), G("g3"))), Or2(G("g2"), G("g3")),
@@ -114,7 +116,7 @@ HelperKinds == <<"add_pfba", "add_moma", "add_room", "fix_objective_as_constrain
 DrawSpec(C, ds) ==
   LET id == PickPresent(PlainRx, RxU \ C.rxns, ds[1])      \* prefer an id that is NOT in the model yet
       ma == Pick(MetSeq, ds[2]) mb == Pick(MetSeq, ds[3])
-      lo == Pick(BoundVals, ds[4]) hi == Pick(BoundVals, ds[5]) IN
+      lo == Pick(LoVals, ds[4]) hi == Pick(HiVals, ds[5]) IN
   Spec(id, St1(ma, Pick(CoefVals, ds[6]), mb, Pick(CoefVals, ds[7])),
        Min2(lo, hi), Max2(lo, hi), Pick(RuleU, ds[8]))
 DrawD(C, ds) ==     \* a sparse metabolite -> coefficient dictionary with 1..2 entries
@@ -125,7 +127,10 @@ DrawOp(r, S) ==
   LET d == Draws(r, 24)
       s == IF IsModel(S.m[2]) /\ d[1] % 3 = 0 THEN 2 ELSE 1
       C == IF IsModel(S.m[s]) THEN S.m[s] ELSE EmptyContent("glpk")
-      k == Pick(Mix, d[2])
+      k0 == Pick(Mix, d[2])
+      \* switching the solver inside an open context is a known finding (F38) that shadows the rest of the
+      \* walk: keep it rare
+      k == IF k0 = "SwitchSolver" /\ IsModel(S.m[s]) /\ Len(S.ctx[s]) > 0 /\ d[23] % 5 # 0 THEN "SetDirection" ELSE k0
       rx == PickPresent(RxSeq, C.rxns, d[3])
       rx2 == PickPresent(RxSeq, C.rxns, d[4])
       mt == PickPresent(MetSeq, C.mets, d[5])
@@ -149,8 +154,9 @@ DrawOp(r, S) ==
          base @@ [r |-> rx, d |-> DrawD(C, SubSeq(d, 8, 12)), combine |-> d[13] % 3 # 0, form |-> d[14] % 2]
     [] k = "RxnIMul" -> base @@ [r |-> rx, k |-> Pick(<<2, -1, 3, -2, 7>>, d[8])]
     [] k \in {"RxnIAdd", "RxnISub"} -> base @@ [r |-> rx, q |-> rx2]
-    [] k \in {"SetLB", "SetUB"} -> base @@ [r |-> rx, v |-> Pick(BoundVals, d[8])]
-    [] k = "SetBounds" -> base @@ [r |-> rx, lo |-> Pick(BoundVals, d[8]), hi |-> Pick(BoundVals, d[9])]
+    [] k = "SetLB" -> base @@ [r |-> rx, v |-> Pick(LoVals, d[8])]
+    [] k = "SetUB" -> base @@ [r |-> rx, v |-> Pick(HiVals, d[8])]
+    [] k = "SetBounds" -> base @@ [r |-> rx, lo |-> Pick(LoVals, d[8]), hi |-> Pick(HiVals, d[9])]
     [] k = "RxnKnockOut" -> base @@ [r |-> rx]
     [] k = "SetRule" -> base @@ [r |-> rx, rule |-> Pick(RuleU, d[8]), form |-> d[9] % 2]
     [] k = "GeneKnockOut" -> base @@ [g |-> gn]
